@@ -4,6 +4,7 @@ mod cross;
 mod db;
 mod det;
 mod dom;
+mod faults;
 mod foreign;
 mod gen;
 mod pval;
@@ -108,6 +109,26 @@ fn main() {
             let count: usize = arg(&args, "--count", "100").parse().unwrap();
             let variant: u64 = arg(&args, "--variant", "0").parse().unwrap();
             det::run(seed, count, variant, &mut out);
+        }
+        "faults" => {
+            let kind = arg(&args, "--kind", "truncate");
+            let step: usize = arg(&args, "--step", "1").parse().unwrap();
+            let seed: u64 = arg(&args, "--seed", "1").parse().unwrap();
+            let count: usize = arg(&args, "--count", "1000").parse().unwrap();
+            match kind.as_str() {
+                "truncate" => faults::run_truncate(&mut out, step),
+                "schedule" => {
+                    let stdin = std::io::stdin();
+                    faults::run_schedules(&mut stdin.lock(), &mut out)
+                }
+                "sinkfail" => faults::run_sinkfail(&mut out, step),
+                "mutate" => faults::run_mutate(&mut out, step),
+                "depth" => {
+                    let ds: Vec<usize> = arg(&args, "--depths", "10,100,1000").split(',').map(|x| x.parse().unwrap()).collect();
+                    faults::run_depth(&mut out, &ds)
+                }
+                _ => faults::run_random(seed, count, &mut out),
+            }
         }
         "export-db" => {
             db::export(rbx_reflection_database::get(), &mut out);
